@@ -21,7 +21,7 @@ def run(ck):
         '(R3) DualMSM::scale/add_msm act on both channels, the accumulators hash all inputs; '
         '(R4) totality: every explicit panic site in the bodies of batch_verify / Guard::batch_verify is triaged; '
         '(R5) scaling discipline: in every scale / accumulate-with-r routine each scalar that is stored depends, by value, on the random factor. '
-        'Does not decide the probabilistic "accepts iff all valid" statement.')
+        '(R5) see above. Does not decide the probabilistic "accepts iff all valid" statement.')
     r1_member(ck, w)
     r2_fold(ck, w)
     r3_channels(ck, w)
